@@ -81,6 +81,15 @@ def run_task(name, build, mode="U"):
         live = [p for p in paths if p.outcome[0] in ("return", "raise") or (p.outcome[0] == "stop" and "loop body done" in p.outcome[1])]
         res.cover = bool(live)
         res.meta["stopped_early"] = I.stopped
+        # premises must be satisfiable on at least one complete path (contradictory axioms / requires prove anything)
+        cov = []
+        for pth in [p for p in live if p.outcome[0] != "stop"][:2] or live[:1]:
+            I.path = pth
+            cov.append(I.cover(pth, int(res.meta.get("cover_timeout_ms", 10000))))
+        res.meta["cover"] = cov
+        if cov and all(c == "unsat" for c in cov):
+            res.status = "undecided"
+            res.detail = "vacuous: the premises of every checked path are unsatisfiable (contradictory axioms or assumptions)"
         if not live and not I.stopped and all(o.status == "proved" for o in I.obligations):
             res.status = "undecided"
             res.detail = "vacuous: no feasible path reaches an exit (premises unsatisfiable?)"
@@ -96,7 +105,7 @@ def run_task(name, build, mode="U"):
         import os
 
         if os.environ.get("PYVC_DEBUG"):
-            res.detail += "\n" + traceback.format_exc()[-3000:]
+            res.detail += "\n" + traceback.format_exc()[-900:]
     except RecursionError as e:
         res.status = "undecided"
         res.detail = f"recursion limit in engine: {e}"
